@@ -178,10 +178,17 @@ func runNew(a []string) string {
 	case "nofile": // LeaseFilename == ""
 		return construct(s, c, "").obs
 	case "err": // missing file
-	case "doc":
+	case "doc", "docok", "docbad":
 		text, err := yaml.Marshal(docOfTokens(a[2:]))
 		if err != nil {
 			return "marshal-error"
+		}
+		switch a[2] {
+		case "docok": // as saveConfig writes it
+			text = withSum(text)
+		case "docbad": // a checksum line that does not match (last hex digit changed)
+			text = withSum(text)
+			text[len("checksum: ")+63] ^= 1
 		}
 		if got := strings.Join(docTokens(text), " "); got != strings.Join(a[2:], " ") {
 			return "yaml-roundtrip-miss " + got
